@@ -71,7 +71,22 @@ def pick_pointers(r, ns, tries=400):
     return r.randrange(256), r.randrange(256), r.randrange(256), False
 
 
-def build_case(r, pfx, op, b2, flavour="dist", addr=None, small_payload=True, icount=None):
+def _dontcare(ins):
+    out = []
+    stack = list(ins.operands_coding())
+    while stack:
+        o = stack.pop()
+        eh = getattr(o, "extra_hi", None)
+        if isinstance(eh, int) and (eh >> 4):
+            out.append("imm20_hi_nibble")
+        for attr in ("reg", "imem", "imem1", "imem2", "mode_imm", "offset"):
+            sub = getattr(o, attr, None)
+            if sub is not None and hasattr(sub, "__dict__") and not isinstance(sub, str):
+                stack.append(sub)
+    return out
+
+
+def build_case(r, pfx, op, b2, flavour="dist", addr=None, small_payload=True, icount=None, canonical=None):
     dec = _dec()
     if small_payload:
         tail = bytes(r.randrange(0x08, 0x60) for _ in range(5))
@@ -84,6 +99,21 @@ def build_case(r, pfx, op, b2, flavour="dist", addr=None, small_payload=True, ic
     if ins is None:
         return None
     L = ins.length()
+    dc = _dontcare(ins)
+    if dc and (canonical if canonical is not None else r.random() < 0.6):
+        # canonical flavour: clear the ignored high nibble of 20-bit immediates/addresses
+        from sc62015.pysc62015.instr import encode
+        stack = list(ins.operands_coding())
+        while stack:
+            o = stack.pop()
+            if isinstance(getattr(o, "extra_hi", None), int):
+                o.extra_hi &= 0x0F
+            for attr in ("reg", "imem", "imem1", "imem2", "mode_imm", "offset"):
+                sub = getattr(o, attr, None)
+                if sub is not None and hasattr(sub, "__dict__") and not isinstance(sub, str):
+                    stack.append(sub)
+        buf = bytes(encode(ins, addr)) + buf[L:]
+        dc = []
     buf = buf[:L] + bytes([0x00, 0x00])  # NOPs after the instruction: lookahead decodes harmlessly
     try:
         mn, ops = tok.parse(ins.render())
@@ -91,7 +121,7 @@ def build_case(r, pfx, op, b2, flavour="dist", addr=None, small_payload=True, ic
         mn, ops = ins.name(), []
     case = {"bytes": buf.hex(), "addr": addr, "flavour": flavour, "len": L,
             "pfx": pfx, "op": op, "b2": b2, "mn": mn,
-            "opc": getattr(ins, "opcode", None), "preb": getattr(ins, "_pre", None)}
+            "opc": getattr(ins, "opcode", None), "preb": getattr(ins, "_pre", None), "dontcare": dc}
     mem: dict[int, int] = {}
     regs = {}
     if flavour == "dist":
